@@ -663,6 +663,146 @@ def rule_reported_by_layer(rep, repo):
                             "get_quantizers_not_interpretable")))
 
 
+def rule_mobilenet_factory(rep, repo):
+  """R7: QMobileNetSeparableConv2D expands into the documented chain.  The
+  factory is interpreted with the layer classes as recording stand-ins
+  (every construction and every application is logged; an application
+  returns a term wrapping its input): default order depthwise -> [quantized
+  intermediate activation] -> [dropout] -> pointwise -> [output activation];
+  with pw_first pointwise -> [intermediate activation] -> [dropout] ->
+  depthwise -> [output activation]; every stage is applied to the previous
+  stage's output; the depthwise stage gets the geometry and the depthwise
+  quantizer / range / constraint and no bias, the pointwise stage a 1x1
+  convolution with the filters, the pointwise and bias quantizers."""
+  qc = repo.module("qkeras.qconvolutional")
+  fn = qc.functions.get("QMobileNetSeparableConv2D")
+  if fn is None:
+    raise AnalysisError("anchor-missing qconvolutional."
+                        "QMobileNetSeparableConv2D")
+  unit = "%s::QMobileNetSeparableConv2D" % qc.relpath
+  rep.unit(unit)
+  loc = qc.loc(fn)
+  n = 0
+  for pw_first in (False, True):
+    for dw_act, rate, act in (("quantized_relu(3,1)", F(1, 4), "relu"),
+                              ("quantized_relu(3,1)", 0, None),
+                              (None, F(1, 4), None), (None, 0, "softmax"),
+                              ("QACT", 0, None)):
+      log = []
+
+      def layer_class(kind):
+        def ctor(pe_, a, k, kind=kind):
+          idx = len(log)
+          log.append({"kind": kind, "args": list(a), "kw": dict(k),
+                      "input": None})
+
+          def apply_(pe__, a_, k_, idx=idx):
+            t = pe__.as_term(a_[0])
+            log[idx]["input"] = t
+            return Tensor(("app", "stage%d" % idx, (), (t,)), None)
+          return Mock(kind, {"__call__": apply_})
+        return Mock(kind + "_class", {"__call__": ctor})
+      over = {k_: layer_class(k_) for k_ in (
+          "QConv2D", "QDepthwiseConv2D", "Dropout", "Activation")}
+      qact_cls = layer_class("QActivation")
+      over["QActivation"] = qact_cls
+      pe = PE(repo, module_overrides={qc.name: over})
+      pe.opaque_ext = True
+      dwa = dw_act
+      if dw_act == "QACT":
+        # an intermediate activation handed over as a layer object
+        dwa = Mock("QActivation", {"__classes__": ("QActivation",),
+                                   "__call__": None})
+        idx_obj = [None]
+
+        def apply_obj(pe__, a_, k_):
+          idx = len(log)
+          t = pe__.as_term(a_[0])
+          log.append({"kind": "QActivation(object)", "args": [], "kw": {},
+                      "input": t})
+          return Tensor(("app", "stage%d" % idx, (), (t,)), None)
+        dwa.attrs["__call__"] = apply_obj
+      cfg = "QMobileNetSeparableConv2D(pw_first=%s, depthwise_activation=" \
+          "%s, depthwise_dropout_rate=%s, activation=%s)" % (
+              pw_first, "a QActivation layer" if dw_act == "QACT" else
+              dw_act, rate, act)
+      kw = dict(filters=8, kernel_size=(3, 2), strides=(2, 1),
+                padding="same", dilation_rate=(1, 2), depth_multiplier=2,
+                activation=act, use_bias=True, depthwise_quantizer="DQ",
+                pointwise_quantizer="PQ", bias_quantizer="BQ",
+                depthwise_activation=dwa, depthwise_range="DR",
+                pointwise_range="PR", bias_range="BR",
+                depthwise_constraint="DC", pointwise_constraint="PC",
+                depthwise_dropout_rate=rate, pw_first=pw_first, name="blk")
+      try:
+        call = pe.call(pe.lookup_global("QMobileNetSeparableConv2D", qc),
+                       [], kw)
+        x0 = pe.x_input()
+        out = pe.call(call, [x0], {})
+      except PyRaise as e:
+        rep.fail("R7", unit, "factory-raises", "%s raises %s" % (cfg, e),
+                 loc=loc, instance=cfg)
+        continue
+      n += 1
+      mid = []
+      if dw_act == "QACT":
+        mid.append("QActivation(object)")
+      elif dw_act:
+        mid.append("QActivation")
+      if rate:
+        mid.append("Dropout")
+      want = (["QConv2D"] + mid + ["QDepthwiseConv2D"]) if pw_first else (
+          ["QDepthwiseConv2D"] + mid + ["QConv2D"])
+      if act:
+        want.append("Activation")
+      # stages in the order they were APPLIED
+      order, t = [], pe.as_term(out)
+      while t[0] == "app" and t[1].startswith("stage"):
+        order.append(int(t[1][5:]))
+        t = t[3][0]
+      order.reverse()
+      got = [log[i]["kind"] for i in order]
+      rep.check(got == want and t == x0.term, "R7", unit, "stage-order",
+                "%s: the input passes through %s, documented %s" % (
+                    cfg, got, want), loc=loc, instance=cfg,
+                observed=str(got))
+      by = {log[i]["kind"]: log[i] for i in order}
+      dw, pw = by.get("QDepthwiseConv2D"), by.get("QConv2D")
+      if dw is not None:
+        k = dw["kw"]
+        ok = (dw["args"][:1] == [(3, 2)] or k.get("kernel_size") == (3, 2)) \
+            and k.get("strides") == (2, 1) and k.get("dilation_rate") == (
+                1, 2) and k.get("padding") == "same" and k.get(
+                    "depth_multiplier") == 2 and k.get("use_bias") is False \
+            and k.get("depthwise_quantizer") == "DQ" and k.get(
+                "depthwise_range") == "DR" and k.get(
+                    "depthwise_constraint") == "DC"
+        rep.check(ok, "R7", unit, "depthwise-stage-options",
+                  "%s: the depthwise stage is built with %r %r" % (
+                      cfg, dw["args"], k), loc=loc, instance=cfg)
+      if pw is not None:
+        k = pw["kw"]
+        a_ = pw["args"]
+        ok = (a_[:2] == [8, (1, 1)] or (k.get("filters") == 8 and k.get(
+            "kernel_size") == (1, 1))) and k.get("use_bias") is True and \
+            k.get("kernel_quantizer") == "PQ" and k.get(
+                "bias_quantizer") == "BQ" and k.get("kernel_range") == "PR" \
+            and k.get("bias_range") == "BR" and k.get(
+                "kernel_constraint") == "PC" and k.get("strides") == (1, 1)
+        rep.check(ok, "R7", unit, "pointwise-stage-options",
+                  "%s: the pointwise stage is built with %r %r" % (
+                      cfg, a_, k), loc=loc, instance=cfg)
+      qa = by.get("QActivation")
+      if qa is not None:
+        rep.check(qa["args"][:1] == ["quantized_relu(3,1)"] or qa["kw"].get(
+            "activation") == "quantized_relu(3,1)", "R7", unit,
+                  "intermediate-activation-quantizer",
+                  "%s: the intermediate activation is built with %r %r" % (
+                      cfg, qa["args"], qa["kw"]), loc=loc, instance=cfg)
+  if n < 8:
+    raise AnalysisError("instance-count only %d factory expansions" % n)
+
+
 def rule_dead_options(rep, repo):
   classes = list(SPECS) + ["qkeras.qpooling.QAveragePooling2D",
                            "qkeras.qpooling.QGlobalAveragePooling2D",
@@ -824,6 +964,8 @@ def run(rep, repo, tier):
   rule_layers(rep, repo, tier)
   rule_quantizers_list(rep, repo)
   rule_reported_by_layer(rep, repo)
+  rule_mobilenet_factory(rep, repo)
+  rep.require_instances("R7", 20)
   rule_dead_options(rep, repo)
   rule_pooling(rep, repo)
   rep.require_instances("R1", 50)
